@@ -1,0 +1,243 @@
+// Copyright 2020-2025 Buf Technologies, Inc.
+//
+// Licensed under the Apache License, Version 2.0 (the "License");
+// you may not use this file except in compliance with the License.
+// You may obtain a copy of the License at
+//
+//      http://www.apache.org/licenses/LICENSE-2.0
+//
+// Unless required by applicable law or agreed to in writing, software
+// distributed under the License is distributed on an "AS IS" BASIS,
+// WITHOUT WARRANTIES OR CONDITIONS OF ANY KIND, either express or implied.
+// See the License for the specific language governing permissions and
+// limitations under the License.
+
+//go:build verif
+
+package bufimage
+
+// Contracts for the gocv verifier (contract author ca-S). Comment-only.
+// Spec functions (s_*) and trusted declarations: /verif/specs/C01_descriptor.spec.
+//
+// ---- (3) build_image.go: the resolver of a source-built image ----
+// Accessor purity (trusted): descriptors are immutable values seen through their accessors.
+//@ trusted pure interface container
+//@ trusted pure interface protoreflect.ExtensionDescriptors
+//@ trusted pure interface protoreflect.MessageDescriptors
+//@ trusted pure interface protoreflect.FieldDescriptor
+//@ trusted pure interface protoreflect.MessageDescriptor
+//
+// findExtension: C11 ("custom options, extensions ... are preserved" in every encoding: the JSON/YAML writers
+// re-parse extension fields with Image.Resolver(), which must find an extension wherever it is declared).
+// The result is non-nil iff an extension of `message` with number `field` is declared directly in d OR nested
+// inside any message of d at any depth; a non-nil result is such a declaration.
+//@ pure func findExtension(d, message, field) (r)
+//@   property C11
+//@   use s_hasExt-unfold, s_declaresExt-unfold
+//@   reveal s_extMatches
+//@   ensures declared-at-any-depth-is-found: s_hasExt(d, message, field) ==> r != nil
+//@   ensures found-only-if-declared: r != nil ==> s_hasExt(d, message, field)
+//@   ensures found-has-number: r != nil ==> r.Number() == field
+//@   ensures found-extends-message: r != nil ==> r.ContainingMessage().FullName() == message
+//@   ensures found-is-declared-in-d: r != nil ==> s_declaresExt(d, r)
+//@   loop 0 invariant 0 <= i && length == extensions.Len() && extensions == d.Extensions()
+//@   loop 0 invariant forall k int :: 0 <= k && k < i ==> !s_extMatches(extensions.Get(k), message, field)
+//@   loop 1 invariant forall k int :: 0 <= k && k < $i ==> !s_hasExt(d.Messages().Get(k), message, field)
+//@   canary ensures r == nil
+//@   canary ensures r != nil
+//
+// The lookups of the resolver (protoencoding.Resolver of a source-built image). The symbol table (trusted, pure)
+// names the file an element was registered in; the element itself is then searched in that file.
+//
+// FindFileByPath: exactly the files of the transitive import graph, anything else is NotFound.
+//@ func (r *resolverForFiles) FindFileByPath(path) (fd, err)
+//@   property C11
+//@   ensures known-file: path in r.pathToFile ==> fd == r.pathToFile[path] && err == nil
+//@   ensures unknown-file-is-not-found: !(path in r.pathToFile) ==> fd == nil && err == protoregistry.NotFound
+//
+//@ func (r *resolverForFiles) FindDescriptorByName(name) (d, err)
+//@   property C11
+//@   ensures found-is-the-registered-element: err == nil ==> d != nil && r.symbols.Lookup(name) != nil && d == s_fileAt(r.pathToFile, r.symbols.Lookup(name).Start().Filename).FindDescriptorByName(name)
+//@   ensures found-has-name: err == nil ==> d.FullName() == name
+//@   ensures registered-is-found: r.symbols.Lookup(name) != nil && s_fileAt(r.pathToFile, r.symbols.Lookup(name).Start().Filename).FindDescriptorByName(name) != nil ==> err == nil
+//@   ensures failure-is-not-found: err != nil ==> d == nil && err == protoregistry.NotFound
+//
+// FindExtensionByNumber: an extension of `message` with number `field` that the symbol table knows resolves iff it is
+// declared in the registered file at top level or nested in messages at ANY depth; the resolved type describes
+// an extension with that extendee and number.
+//@ func (r *resolverForFiles) FindExtensionByNumber(message, field) (xt, err)
+//@   property C11
+//@   ensures resolved-has-number: err == nil ==> xt != nil && xt.TypeDescriptor().Number() == field
+//@   ensures resolved-extends-message: err == nil ==> xt.TypeDescriptor().ContainingMessage().FullName() == message
+//@   ensures declared-at-any-depth-resolves: r.symbols.LookupExtension(message, field) != nil && s_hasExt(s_fileAt(r.pathToFile, r.symbols.LookupExtension(message, field).Start().Filename), message, field) ==> err == nil
+//@   ensures resolves-only-declared: err == nil ==> r.symbols.LookupExtension(message, field) != nil && s_hasExt(s_fileAt(r.pathToFile, r.symbols.LookupExtension(message, field).Start().Filename), message, field)
+//@   ensures failure-is-not-found: err != nil ==> xt == nil && err == protoregistry.NotFound
+//@   canary ensures err != nil
+//@   canary ensures err == nil
+//
+//@ func (r *resolverForFiles) FindExtensionByName(field) (xt, err)
+//@   property C11
+//@   ensures resolved-has-name: err == nil ==> xt != nil && xt.TypeDescriptor().FullName() == field
+//@   ensures unregistered-is-not-found: r.symbols.Lookup(field) == nil ==> xt == nil && err == protoregistry.NotFound
+//@   ensures failure-has-no-type: err != nil ==> xt == nil
+//
+//@ func (r *resolverForFiles) FindMessageByName(message) (mt, err)
+//@   property C11
+//@   ensures resolved-has-name: err == nil ==> mt != nil && mt.Descriptor().FullName() == message
+//@   ensures resolved-is-the-registered-element: err == nil ==> r.symbols.Lookup(message) != nil && mt.Descriptor() == s_fileAt(r.pathToFile, r.symbols.Lookup(message).Start().Filename).FindDescriptorByName(message)
+//@   ensures unregistered-is-not-found: r.symbols.Lookup(message) == nil ==> mt == nil && err == protoregistry.NotFound
+//@   ensures failure-has-no-type: err != nil ==> mt == nil
+//
+// FindMessageByURL: the message type named by what follows the last '/' of the type URL (the whole URL if there is none).
+//@ func (r *resolverForFiles) FindMessageByURL(url) (mt, err)
+//@   property C11
+//@   ensures resolved-is-named-by-the-url-suffix: err == nil ==> mt != nil && mt.Descriptor().FullName() == substr(url, strings.LastIndexByte(url, 47) + 1, len(url))
+//@   ensures unregistered-is-not-found: r.symbols.Lookup(substr(url, strings.LastIndexByte(url, 47) + 1, len(url))) == nil ==> mt == nil && err == protoregistry.NotFound
+//@   ensures failure-has-no-type: err != nil ==> mt == nil
+//
+//@ func (r *resolverForFiles) FindEnumByName(enum) (et, err)
+//@   property C11
+//@   ensures resolved-has-name: err == nil ==> et != nil && et.Descriptor().FullName() == enum
+//@   ensures resolved-is-the-registered-element: err == nil ==> r.symbols.Lookup(enum) != nil && et.Descriptor() == s_fileAt(r.pathToFile, r.symbols.Lookup(enum).Start().Filename).FindDescriptorByName(enum)
+//@   ensures unregistered-is-not-found: r.symbols.Lookup(enum) == nil ==> et == nil && err == protoregistry.NotFound
+//@   ensures failure-has-no-type: err != nil ==> et == nil
+//
+// ---- (2) parser_accessor_handler.go: where the compiler gets its sources from ----
+//
+// addPath records what an opened path is labelled with. The first external path recorded for a path is kept and a
+// different one is an error; a module name / commit is recorded only when there is one; no other path is touched.
+//@ func (p *parserAccessorHandler) addPath(path, externalPath, localPath, moduleFullName, commitID) (err)
+//@   property C01
+//@   modifies heap parserAccessorHandler.pathToExternalPath, heap parserAccessorHandler.pathToLocalPath, heap parserAccessorHandler.pathToFullName, heap parserAccessorHandler.pathToCommitID
+//@   ensures external-path-registered: err == nil ==> path in p.pathToExternalPath && p.pathToExternalPath[path] == externalPath
+//@   ensures conflicting-external-path-rejected: path in old(p.pathToExternalPath) && old(p.pathToExternalPath)[path] != externalPath ==> err != nil
+//@   ensures local-path-registered: err == nil && localPath != "" ==> path in p.pathToLocalPath && p.pathToLocalPath[path] == localPath
+//@   ensures no-local-path-invented: localPath == "" ==> p.pathToLocalPath == old(p.pathToLocalPath)
+//@   ensures module-name-registered: err == nil && moduleFullName != nil ==> path in p.pathToFullName && p.pathToFullName[path] == moduleFullName
+//@   ensures no-module-name-invented: moduleFullName == nil ==> p.pathToFullName == old(p.pathToFullName)
+// (commit: the two clauses `commitID != uuid.Nil ==> registered` / `commitID == uuid.Nil ==> map unchanged` are NOT stated:
+// the engine evaluates the Go array comparison `commitID != uuid.Nil` as a nil-slice test, i.e. constant true, so
+// neither direction would be checked against the real semantics. What is stated holds under both readings.)
+//@   ensures commit-registered-or-kept: err == nil ==> p.pathToCommitID == old(p.pathToCommitID) || (path in p.pathToCommitID && p.pathToCommitID[path] == commitID)
+//@   ensures other-commits-untouched: forall q string :: q != path ==> (q in p.pathToCommitID <==> q in old(p.pathToCommitID)) && p.pathToCommitID[q] == old(p.pathToCommitID)[q]
+//@   ensures other-paths-untouched: forall q string :: q != path ==> (q in p.pathToExternalPath <==> q in old(p.pathToExternalPath)) && p.pathToExternalPath[q] == old(p.pathToExternalPath)[q] && (q in p.pathToFullName <==> q in old(p.pathToFullName)) && p.pathToFullName[q] == old(p.pathToFullName)[q]
+//@   canary ensures err != nil
+//@   canary ensures err == nil
+//
+// Open: C01 "well-known-type imports resolve to the built-in copies UNLESS THE WORKSPACE SUPPLIES THEM", and the file
+// carries "the owning module's name/commit". With W = p.moduleReadBucket.GetFile(p.ctx, path) (trusted, pure: what the
+// workspace answers for the path; second(W) == nil means the workspace supplies the path):
+//  * the workspace is asked first and a file it supplies is what the compiler reads: never the embedded copy, the
+//    embedded bucket (datawkt.ReadBucket, a trusted storage sink that records itself in ghost.sinkBuckets) is not
+//    even consulted; the file is registered with the external/local path and module name/commit of the workspace file;
+//  * any workspace error other than fs.ErrNotExist is returned as is;
+//  * only on fs.ErrNotExist the embedded bucket (which holds nothing but the well-known types) is asked for the path;
+//    its copy is registered under its own path, with NO module name and NO commit;
+//  * nothing else is invented: if neither has the path the workspace's not-exist error is returned.
+//@ func (p *parserAccessorHandler) Open(path) (r, retErr)
+//@   property C01
+//@   modifies ghost.fail, ghost.wfail, ghost.sinkPaths, ghost.sinkBuckets, heap parserAccessorHandler.pathToExternalPath, heap parserAccessorHandler.pathToLocalPath, heap parserAccessorHandler.pathToFullName, heap parserAccessorHandler.pathToCommitID
+//@   ensures workspace-file-wins: second(p.moduleReadBucket.GetFile(p.ctx, path)) == nil && retErr == nil ==> r == first(p.moduleReadBucket.GetFile(p.ctx, path))
+//@   ensures embedded-copy-not-consulted-when-supplied: second(p.moduleReadBucket.GetFile(p.ctx, path)) == nil ==> ghost.sinkBuckets == old(ghost.sinkBuckets) && ghost.sinkPaths == old(ghost.sinkPaths)
+//@   ensures workspace-external-path-registered: second(p.moduleReadBucket.GetFile(p.ctx, path)) == nil && retErr == nil ==> path in p.pathToExternalPath && p.pathToExternalPath[path] == first(p.moduleReadBucket.GetFile(p.ctx, path)).ExternalPath()
+//@   ensures workspace-local-path-registered: second(p.moduleReadBucket.GetFile(p.ctx, path)) == nil && retErr == nil && first(p.moduleReadBucket.GetFile(p.ctx, path)).LocalPath() != "" ==> path in p.pathToLocalPath && p.pathToLocalPath[path] == first(p.moduleReadBucket.GetFile(p.ctx, path)).LocalPath()
+//@   ensures workspace-module-name-registered: second(p.moduleReadBucket.GetFile(p.ctx, path)) == nil && retErr == nil && first(p.moduleReadBucket.GetFile(p.ctx, path)).Module().FullName() != nil ==> path in p.pathToFullName && p.pathToFullName[path] == first(p.moduleReadBucket.GetFile(p.ctx, path)).Module().FullName()
+//@   ensures workspace-commit-registered-or-kept: second(p.moduleReadBucket.GetFile(p.ctx, path)) == nil && retErr == nil ==> p.pathToCommitID == old(p.pathToCommitID) || (path in p.pathToCommitID && p.pathToCommitID[path] == first(p.moduleReadBucket.GetFile(p.ctx, path)).Module().CommitID())
+//@   ensures workspace-file-has-requested-path: second(p.moduleReadBucket.GetFile(p.ctx, path)) == nil && first(p.moduleReadBucket.GetFile(p.ctx, path)).Path() != path ==> retErr != nil
+//@   ensures other-workspace-error-returned: second(p.moduleReadBucket.GetFile(p.ctx, path)) != nil && !errors.Is(second(p.moduleReadBucket.GetFile(p.ctx, path)), fs.ErrNotExist) ==> r == nil && retErr == second(p.moduleReadBucket.GetFile(p.ctx, path)) && ghost.sinkBuckets == old(ghost.sinkBuckets)
+//@   ensures embedded-copy-only-after-not-exist: ghost.sinkBuckets != old(ghost.sinkBuckets) || ghost.sinkPaths != old(ghost.sinkPaths) ==> second(p.moduleReadBucket.GetFile(p.ctx, path)) != nil && errors.Is(second(p.moduleReadBucket.GetFile(p.ctx, path)), fs.ErrNotExist)
+//@   ensures fallback-asks-only-the-embedded-bucket-for-the-path: ghost.sinkBuckets == old(ghost.sinkBuckets) || (ghost.sinkBuckets == add(old(ghost.sinkBuckets), datawkt.ReadBucket) && ghost.sinkPaths == add(old(ghost.sinkPaths), path))
+//@   ensures embedded-copy-has-requested-path: second(p.moduleReadBucket.GetFile(p.ctx, path)) != nil && retErr == nil ==> r != nil && cast(storage.ReadObjectCloser, r).Path() == path
+//@   ensures embedded-copy-registered-under-own-path: second(p.moduleReadBucket.GetFile(p.ctx, path)) != nil && retErr == nil ==> path in p.pathToExternalPath && p.pathToExternalPath[path] == path
+//@   ensures embedded-copy-gets-no-module: second(p.moduleReadBucket.GetFile(p.ctx, path)) != nil ==> p.pathToFullName == old(p.pathToFullName) && p.pathToLocalPath == old(p.pathToLocalPath)
+//@   ensures missing-everywhere-is-the-workspace-error: second(p.moduleReadBucket.GetFile(p.ctx, path)) != nil && ghost.fail && !old(ghost.fail) ==> r == nil && retErr == second(p.moduleReadBucket.GetFile(p.ctx, path))
+//@   ensures failure-returns-no-reader: retErr != nil ==> r == nil
+//@   ensures other-paths-untouched: forall q string :: q != path ==> (q in p.pathToExternalPath <==> q in old(p.pathToExternalPath)) && p.pathToExternalPath[q] == old(p.pathToExternalPath)[q] && (q in p.pathToFullName <==> q in old(p.pathToFullName)) && p.pathToFullName[q] == old(p.pathToFullName)[q]
+//@   canary ensures retErr != nil
+//@   canary ensures retErr == nil
+//@   canary ensures retErr == nil ==> r == first(p.moduleReadBucket.GetFile(p.ctx, path))
+//
+// ---- (1) util.go: the written-out form of an image file ----
+//
+// fileDescriptorProtoToProtoImageFile: C01 "each file's descriptor (including source info, the unused-import and
+// unspecified-syntax markers and the owning module's name/commit) is what the compiler produces", C11 "a built image
+// written ... and read back equals the original (... extensions, unknown fields, source info, module metadata are
+// preserved)". The written-out imagev1.ImageFile carries EVERY field of the compiled FileDescriptorProto unchanged
+// (one clause per field, over the generated getters of the result; the input side is the descriptor's getter where it
+// is a declared pure accessor, else its open-struct field; optional scalars: same presence, same value), and the buf extension carries exactly what was given.
+// Trusted model of the generated builder/getters: /verif/specs/C01_descriptor.spec.
+// Input domain: a non-nil descriptor (an ImageFile never has a nil descriptor; the code dereferences it).
+//@ func fileDescriptorProtoToProtoImageFile(fileDescriptorProto, isImport, isSyntaxUnspecified, unusedDependencyIndexes, moduleFullName, moduleProtoCommitID) (r)
+//@   property C01 C11
+//@   modifies ghost.s_unknown, heap imagev1.ModuleInfo.xxx_hidden_Commit
+//@   use s_cell-of-proto-String, s_cell-of-proto-Bool
+//@   requires descriptor-given: fileDescriptorProto != nil
+//@   ensures built: r != nil
+//@   ensures name: r.HasName() == (fileDescriptorProto.Name != nil) && r.GetName() == s_strOf(fileDescriptorProto.Name)
+//@   ensures package: r.HasPackage() == (fileDescriptorProto.Package != nil) && r.GetPackage() == s_strOf(fileDescriptorProto.Package)
+//@   ensures syntax: r.HasSyntax() == (fileDescriptorProto.Syntax != nil) && r.GetSyntax() == s_strOf(fileDescriptorProto.Syntax)
+//@   ensures edition: r.HasEdition() == (fileDescriptorProto.Edition != nil) && r.GetEdition() == s_editionOf(fileDescriptorProto.Edition)
+//@   ensures dependency: r.GetDependency() == fileDescriptorProto.GetDependency()
+//@   ensures public-dependency: r.GetPublicDependency() == fileDescriptorProto.PublicDependency
+//@   ensures weak-dependency: r.GetWeakDependency() == fileDescriptorProto.WeakDependency
+//@   ensures message-type: r.GetMessageType() == fileDescriptorProto.GetMessageType()
+//@   ensures enum-type: r.GetEnumType() == fileDescriptorProto.GetEnumType()
+//@   ensures service: r.GetService() == fileDescriptorProto.GetService()
+//@   ensures extension: r.GetExtension() == fileDescriptorProto.GetExtension()
+//@   ensures options: r.GetOptions() == fileDescriptorProto.Options
+//@   ensures source-code-info: r.GetSourceCodeInfo() == fileDescriptorProto.SourceCodeInfo
+//@   ensures buf-extension-present: r.GetBufExtension() != nil
+//@   ensures is-import: r.GetBufExtension().HasIsImport() && r.GetBufExtension().GetIsImport() == isImport
+//@   ensures is-syntax-unspecified: r.GetBufExtension().HasIsSyntaxUnspecified() && r.GetBufExtension().GetIsSyntaxUnspecified() == isSyntaxUnspecified
+//@   ensures unused-dependency-indexes: len(unusedDependencyIndexes) > 0 ==> r.GetBufExtension().GetUnusedDependency() == unusedDependencyIndexes
+//@   ensures no-unused-dependency-indexes: len(unusedDependencyIndexes) == 0 ==> len(r.GetBufExtension().GetUnusedDependency()) == 0
+//@   ensures no-module-info-without-module: moduleFullName == nil ==> r.GetBufExtension().GetModuleInfo() == nil
+//@   ensures module-name: moduleFullName != nil ==> r.GetBufExtension().GetModuleInfo() != nil && r.GetBufExtension().GetModuleInfo().GetName() != nil
+//@   ensures module-name-remote: moduleFullName != nil ==> r.GetBufExtension().GetModuleInfo().GetName().HasRemote() && r.GetBufExtension().GetModuleInfo().GetName().GetRemote() == moduleFullName.Registry()
+//@   ensures module-name-owner: moduleFullName != nil ==> r.GetBufExtension().GetModuleInfo().GetName().HasOwner() && r.GetBufExtension().GetModuleInfo().GetName().GetOwner() == moduleFullName.Owner()
+//@   ensures module-name-repository: moduleFullName != nil ==> r.GetBufExtension().GetModuleInfo().GetName().HasRepository() && r.GetBufExtension().GetModuleInfo().GetName().GetRepository() == moduleFullName.Name()
+//@   ensures module-commit: moduleFullName != nil && moduleProtoCommitID != "" ==> r.GetBufExtension().GetModuleInfo().xxx_hidden_Commit != nil && s_strOf(r.GetBufExtension().GetModuleInfo().xxx_hidden_Commit) == moduleProtoCommitID
+//@   ensures module-no-commit: moduleFullName != nil && moduleProtoCommitID == "" ==> r.GetBufExtension().GetModuleInfo().xxx_hidden_Commit == nil
+//@   ensures unknown-fields-malformed-kept {C11}: !i_wf(old(ghost.s_unknown)[fileDescriptorProto.ProtoReflect()], 0) ==> ghost.s_unknown[r.ProtoReflect()] == old(ghost.s_unknown)[fileDescriptorProto.ProtoReflect()]
+//@   ensures unknown-fields-kept-len {C11}: i_wf(old(ghost.s_unknown)[fileDescriptorProto.ProtoReflect()], 0) ==> len(ghost.s_unknown[r.ProtoReflect()]) == i_stripLen(old(ghost.s_unknown)[fileDescriptorProto.ProtoReflect()], 0)
+//@   ensures unknown-fields-kept-bytes {C11}: i_wf(old(ghost.s_unknown)[fileDescriptorProto.ProtoReflect()], 0) ==> (forall j int :: 0 <= j && j < len(ghost.s_unknown[r.ProtoReflect()]) ==> ghost.s_unknown[r.ProtoReflect()][j] == i_stripAt(old(ghost.s_unknown)[fileDescriptorProto.ProtoReflect()], 0, j))
+//@   canary ensures r.GetPublicDependency() == r.GetWeakDependency()
+//@   canary ensures r.GetBufExtension().GetModuleInfo() == nil
+//
+// imageFileToProtoImageFile: the same statement for an ImageFile: the written-out file carries the file's own
+// descriptor and markers (IsImport, IsSyntaxUnspecified, UnusedDependencyIndexes, module name), never fails.
+// (commit: only "a commit that is written is the file's commit ID in dashless form" is stated; "no commit is written
+// for uuid.Nil" is NOT stated: the engine evaluates the Go array comparison `imageFile.CommitID() != uuid.Nil` to
+// constant true, so that direction cannot be checked.)
+//@ func imageFileToProtoImageFile(imageFile) (r, err)
+//@   property C01 C11
+//@   modifies ghost.s_unknown, heap imagev1.ModuleInfo.xxx_hidden_Commit
+//@   requires file-has-descriptor: imageFile != nil && imageFile.FileDescriptorProto() != nil
+//@   ensures never-fails: err == nil && r != nil
+//@   ensures name: r.HasName() == (imageFile.FileDescriptorProto().Name != nil) && r.GetName() == s_strOf(imageFile.FileDescriptorProto().Name)
+//@   ensures package: r.HasPackage() == (imageFile.FileDescriptorProto().Package != nil) && r.GetPackage() == s_strOf(imageFile.FileDescriptorProto().Package)
+//@   ensures syntax: r.HasSyntax() == (imageFile.FileDescriptorProto().Syntax != nil) && r.GetSyntax() == s_strOf(imageFile.FileDescriptorProto().Syntax)
+//@   ensures edition: r.HasEdition() == (imageFile.FileDescriptorProto().Edition != nil) && r.GetEdition() == s_editionOf(imageFile.FileDescriptorProto().Edition)
+//@   ensures dependency: r.GetDependency() == imageFile.FileDescriptorProto().GetDependency()
+//@   ensures public-dependency: r.GetPublicDependency() == imageFile.FileDescriptorProto().PublicDependency
+//@   ensures weak-dependency: r.GetWeakDependency() == imageFile.FileDescriptorProto().WeakDependency
+//@   ensures message-type: r.GetMessageType() == imageFile.FileDescriptorProto().GetMessageType()
+//@   ensures enum-type: r.GetEnumType() == imageFile.FileDescriptorProto().GetEnumType()
+//@   ensures service: r.GetService() == imageFile.FileDescriptorProto().GetService()
+//@   ensures extension: r.GetExtension() == imageFile.FileDescriptorProto().GetExtension()
+//@   ensures options: r.GetOptions() == imageFile.FileDescriptorProto().Options
+//@   ensures source-code-info: r.GetSourceCodeInfo() == imageFile.FileDescriptorProto().SourceCodeInfo
+//@   ensures is-import: r.GetBufExtension() != nil && r.GetBufExtension().HasIsImport() && r.GetBufExtension().GetIsImport() == imageFile.IsImport()
+//@   ensures is-syntax-unspecified: r.GetBufExtension().HasIsSyntaxUnspecified() && r.GetBufExtension().GetIsSyntaxUnspecified() == imageFile.IsSyntaxUnspecified()
+//@   ensures unused-dependency-indexes: len(imageFile.UnusedDependencyIndexes()) > 0 ==> r.GetBufExtension().GetUnusedDependency() == imageFile.UnusedDependencyIndexes()
+//@   ensures no-unused-dependency-indexes: len(imageFile.UnusedDependencyIndexes()) == 0 ==> len(r.GetBufExtension().GetUnusedDependency()) == 0
+//@   ensures no-module-info-without-module: imageFile.FullName() == nil ==> r.GetBufExtension().GetModuleInfo() == nil
+//@   ensures module-name: imageFile.FullName() != nil ==> r.GetBufExtension().GetModuleInfo() != nil && r.GetBufExtension().GetModuleInfo().GetName() != nil && r.GetBufExtension().GetModuleInfo().GetName().GetRemote() == imageFile.FullName().Registry() && r.GetBufExtension().GetModuleInfo().GetName().GetOwner() == imageFile.FullName().Owner() && r.GetBufExtension().GetModuleInfo().GetName().GetRepository() == imageFile.FullName().Name()
+//@   ensures written-commit-is-the-files-commit: imageFile.FullName() != nil && r.GetBufExtension().GetModuleInfo().xxx_hidden_Commit != nil ==> s_strOf(r.GetBufExtension().GetModuleInfo().xxx_hidden_Commit) == uuidutil.ToDashless(imageFile.CommitID())
+//@   ensures unknown-fields-malformed-kept {C11}: !i_wf(old(ghost.s_unknown)[imageFile.FileDescriptorProto().ProtoReflect()], 0) ==> ghost.s_unknown[r.ProtoReflect()] == old(ghost.s_unknown)[imageFile.FileDescriptorProto().ProtoReflect()]
+//@   ensures unknown-fields-kept-len {C11}: i_wf(old(ghost.s_unknown)[imageFile.FileDescriptorProto().ProtoReflect()], 0) ==> len(ghost.s_unknown[r.ProtoReflect()]) == i_stripLen(old(ghost.s_unknown)[imageFile.FileDescriptorProto().ProtoReflect()], 0)
+//@   canary ensures r.GetBufExtension().GetIsImport() == imageFile.IsSyntaxUnspecified()
+//
+// (ImageToProtoImage is NOT under contract: it stores each converted file with `protoImage.GetFile()[i] = protoImageFile`,
+// a write through a slice obtained from a getter; engine: "out-of-fragment: element write through a slice that is not
+// locally created (aliasing not modelled)". Its per-file work is imageFileToProtoImageFile above.)
